@@ -1,6 +1,6 @@
 (* C16 - splice sites of the code generator (table K10 is generated from /repo on every
    run by tools/kernels/k10_splices.py) and the condition under which a site is safe. *)
-From Coq Require Import List String Ascii NArith Bool.
+From Coq Require Import List String Ascii NArith Bool Lia.
 From Verif Require Import PyStrLit.
 Import ListNotations.
 Open Scope N_scope.
@@ -9,6 +9,8 @@ Open Scope N_scope.
 Inductive kind :=
 | KRepr      (* through repr(): !r conversion, repr(x), map(repr, xs) *)
 | KAscii     (* through ascii(): !a conversion, ascii(x) *)
+| KGuardedIdent (* spliced as it is, but only when the generator has tested that the value is an
+                    identifier, not a keyword, and in NFKC normal form (guard recognised by K10) *)
 | KRaw       (* spliced as it is (between static quote characters or not at all) *)
 | KUnknown.  (* the scanner could not classify the value or its context: fails closed *)
 
@@ -20,7 +22,7 @@ Record site := mk_site {
   s_after : string    (* static text after the value; newline = end of line *)
 }.
 
-Definition kind_ok (k: kind) : bool := match k with KRepr | KAscii => true | _ => false end.
+Definition kind_ok (k: kind) : bool := match k with KRepr | KAscii | KGuardedIdent => true | _ => false end.
 
 (* The literal starts a fresh token: nothing on the line before it opens a string or a
    comment or ends in a backslash, and the character directly before it is not an identifier
@@ -43,15 +45,42 @@ Definition after_ok (a: list N) : bool :=
   | c :: _ => negb (is_quote c) && negb (c <? 9)
   end.
 
+(* after a raw identifier the next character must in addition not continue the name *)
+Definition after_ident_ok (a: list N) : bool :=
+  match a with
+  | [] => false
+  | c :: _ => negb (is_ident_char c)
+  end.
+
 Definition site_ok (s: site) : bool :=
-  kind_ok (s_kind s) && before_ok (codes (s_before s)) && after_ok (codes (s_after s)).
+  kind_ok (s_kind s) && before_ok (codes (s_before s)) && after_ok (codes (s_after s))
+  && match s_kind s with KGuardedIdent => after_ident_ok (codes (s_after s)) | _ => true end.
 
 (* the text the generator emits for the data string [d] at a site of kind k *)
 Definition site_text (k: kind) (p: N -> bool) (d: str) : list N :=
   match k with
   | KAscii => py_ascii d
+  | KGuardedIdent => d
   | _ => py_repr p d
   end.
+
+(* identifier characters are inert for the tokenizer state: none of them is a quote, a backslash,
+   a newline, a comment sign, a blank or NUL - a raw identifier cannot open or close a literal or
+   end the logical line *)
+Lemma ident_char_inert c : is_ident_char c = true ->
+  is_quote c = false /\ c <> BS /\ c <> 10 /\ c <> 13 /\ c <> 35 /\ c <> 32 /\ c <> 0.
+Proof.
+  unfold is_ident_char, is_quote, SQ, DQ, BS. intros H.
+  repeat match goal with
+  | H: _ || _ = true |- _ => apply orb_true_iff in H; destruct H as [H|H]
+  | H: _ && _ = true |- _ => apply andb_true_iff in H; destruct H
+  end;
+  repeat match goal with
+  | H: (_ <=? _) = true |- _ => apply N.leb_le in H
+  | H: (_ =? _) = true |- _ => apply N.eqb_eq in H
+  end;
+  (repeat split; [apply orb_false_iff; split; apply N.eqb_neq; lia | lia ..]).
+Qed.
 
 Lemma after_ok_ctx a rest : after_ok a = true -> ctx_ok (a ++ rest) = true.
 Proof.
